@@ -33,7 +33,7 @@ Open Scope string_scope.
 FLAGS = ["--big-stack", "--code", "--credits", "--data", "--help", "--init", "--no-color", "--no-debug-ops", "--obfuscate",
          "--quiet", "--stdout", "--throttle", "--verbose", "--version", "--warn-octal-off", "--warn-return-off", "assemble",
          "debug", "disassemble", "preprocess", "-h", "-v", "-q"]
-ODD = ["--", "-", "--throttle=5", "--throttle=", "--throttle=abc", "--throttle=-1", "--throttle5", "--init=r1=5", "--init=",
+ODD = ["0", "000", "--throttle=0", "--throttle=00", "--", "-", "--throttle=5", "--throttle=", "--throttle=abc", "--throttle=-1", "--throttle5", "--init=r1=5", "--init=",
        "--init=zz", "--initx", "--bogus", "-x", "-hq", "--HELP", "5", "abc", "r1=5", "r1=5,r2=0x10", "R0=1", "r1=70000", "",
        " ", "--throttle=007", "--init=r1=5 r2=6", "p.hera", "q.hera", "--no-color=1", "assemble=1"]
 
@@ -48,7 +48,10 @@ def gen_argv(rng):
     for _ in range(n):
         r = rng.random()
         if r < 0.55:
-            argv.append(rng.choice(FLAGS))
+            f = rng.choice(FLAGS)
+            argv.append(f)
+            if f in ("--throttle", "--init") and rng.random() < 0.7:
+                argv.append(rng.choice(["0", "5", "000", "", "r1=5", "abc"]))
         elif r < 0.8:
             argv.append(rng.choice(ODD))
         else:
@@ -158,10 +161,17 @@ def main_oracle(rng, root):
     elif pr["kind"] == "run":
         debug = pr["mode"] == "debug"
         broken = kind in ("bad", "missing", "dir", "nonascii", "hex") and pr["mode"] != "disassemble"
+        if pr["path"] == "-":
+            broken, kind = False, "empty"      # standard input, which is empty here
+        elif pr["path"] != p:
+            broken = True           # the positional argument is some other (non-existent) path
+            kind = "missing"
+        if "--no-debug-ops" in pr["flags"] and kind in ("good", "unwritable") and pr["mode"] != "disassemble":
+            broken = True           # the program uses print_reg
         if broken and not (kind == "bad" and False):
             if code != 3 or not err:
                 return "%s: an error in the input must give status 3 and a message; got %r, stderr %r" % (what, code, err[:120]), kind
-        if kind == "unwritable" and pr["mode"] == "assemble" and "--stdout" not in pr["flags"] and (code != 3 or not err):
+        if kind == "unwritable" and not broken and pr["mode"] == "assemble" and "--stdout" not in pr["flags"] and (code != 3 or not err):
             return "%s: the output file cannot be written: status 3 and a message expected, got %r, stderr %r" % (what, code, err[:120]), kind
         if pr["mode"] == "disassemble" and kind in ("missing", "dir", "nonascii") and code != 3:
             return "%s: unreadable input must give status 3; got %r" % (what, code), kind
@@ -193,13 +203,39 @@ def main_oracle(rng, root):
     return None, kind
 
 
+DOCUMENTED_MODES = {"--big-stack": ["", "debug", "assemble"], "--obfuscate": ["preprocess"], "--throttle": [""],
+                    "--warn-return-off": ["", "debug"], "--code": ["assemble"], "--data": ["assemble"], "--stdout": ["assemble"],
+                    "--init": ["", "debug"]}
+
+
+def documented_incompatibility(argv):
+    """The documented rule, re-implemented: a mode-specific option given (in either syntax, with any value)
+    together with a sub-command it does not belong to.  Returns the option or None."""
+    given, mode = set(), ""
+    for a in argv:
+        if a == "--":
+            break
+        for f in DOCUMENTED_MODES:
+            if a == f or (f in ("--throttle", "--init") and a.startswith(f)):
+                given.add(f)
+    for m in ("debug", "assemble", "preprocess", "disassemble"):
+        if m in argv[:argv.index("--")] if "--" in argv else m in argv:
+            mode = m
+            break
+    for f in sorted(given):
+        if mode not in DOCUMENTED_MODES[f]:
+            return f
+    return None
+
+
 def correspondence(ctx, model_available=True):
     quick = ctx.tier == "quick"
     rng = ctx.rng
     from hera.main import parse_init_string
     argvs = [[], ["p.hera"], ["--help"], ["-h", "p.hera"], ["--throttle", "5", "p.hera"], ["--throttle=abc", "p.hera"],
              ["--throttle", "p.hera"], ["--init", "r1=5", "p.hera"], ["--init"], ["--", "--help"], ["p.hera", "q.hera"],
-             ["debug", "--stdout", "p.hera"], ["--quiet", "--verbose", "p.hera"], ["assemble", "--code", "--data", "--stdout", "p.hera"]]
+             ["debug", "--stdout", "p.hera"], ["preprocess", "--throttle", "0", "p.hera"], ["assemble", "--init=", "p.hera"],
+             ["assemble", "--throttle=0", "p.hera"], ["preprocess", "--init", "", "p.hera"], ["debug", "--throttle", "000", "p.hera"], ["--quiet", "--verbose", "p.hera"], ["assemble", "--code", "--data", "--stdout", "p.hera"]]
     argvs += [gen_argv(rng) for _ in range(800 if quick else 15000)]
     impl = [real_parse(a) for a in argvs]
     spec_failures, disagreements = [], []
@@ -208,6 +244,9 @@ def correspondence(ctx, model_available=True):
         dist[r["kind"] if r["kind"] in dist else "raise"] += 1
         if r["kind"] == "raise":
             spec_failures.append({"what": "parse_args(%r) raised %s" % (a, r["exc"]), "argv": a})
+        elif r["kind"] == "run" and documented_incompatibility(a):
+            spec_failures.append({"what": "hera %s is accepted (mode %r) although %s does not belong to that mode: a usage error "
+                                          "(status 1) is documented" % (" ".join(a), r["mode"], documented_incompatibility(a)), "argv": a})
         elif r["kind"] == "usage" and (r["out"] or not r["err"]):
             spec_failures.append({"what": "usage error for %r: stdout %r stderr %r" % (a, r["out"][:60], r["err"][:60]), "argv": a})
     agree = 0
